@@ -262,3 +262,41 @@ class DSDLTemplateLoader(BaseLoader):
                         discovered.add(current_search_type)
 
         return template_path
+
+    def get_template_inputs(self) -> typing.List[pathlib.Path]:
+        """
+        Every file a template of this loader can read: the templates :meth:`get_templates` enumerates and, in
+        addition, files with another suffix (a template may ``{% include %}`` any file of the search path, e.g.
+        style sheets and scripts) and files below symbolically linked sub-directories (Jinja opens them by joining
+        path names; the glob in :meth:`get_templates` does not descend into linked directories). Directories named
+        ``__pycache__`` are skipped.
+        """
+        files = set(self.get_templates())
+
+        def add_files_below(directory: pathlib.Path, visited: typing.Set[pathlib.Path]) -> None:
+            real_directory = directory.resolve()
+            if real_directory in visited:
+                return  # a link cycle: this directory has been listed already
+            visited.add(real_directory)
+            for entry in directory.iterdir():
+                if entry.is_dir():
+                    if entry.name != "__pycache__":  # byte code the interpreter writes by itself is not an input
+                        add_files_below(entry, visited)
+                else:
+                    files.add(entry)
+
+        if self._fsloader is not None:
+            for template_dir in self._fsloader.searchpath:
+                if pathlib.Path(str(template_dir)).is_dir():
+                    add_files_below(pathlib.Path(str(template_dir)), set())
+        if self._package_loader is not None:
+            templates_module = importlib.import_module(self._templates_package_name)
+            spec_perhaps = templates_module.__spec__
+            if spec_perhaps is not None and spec_perhaps.origin is not None and spec_perhaps.origin != "builtin":
+                templates_base_path = pathlib.Path(spec_perhaps.origin).parent
+                files.update(
+                    templates_base_path / pathlib.Path(t)
+                    for t in self._package_loader.list_templates()
+                    if "__pycache__" not in pathlib.PurePosixPath(t).parts[:-1]
+                )
+        return sorted(files)
